@@ -26,9 +26,10 @@ LEVEL = 'exploration'
 RULE = (
     'a case is non-trivial when the generated header value is grammar-valid and has >= 2 list members / '
     'parameters / cookie-pairs / forwarded-pairs (or, for scalar headers, exercises a boundary: '
-    'first==last range, obsolete date form, port present or empty, non-default server port), or when it '
+    'first==last / multi / whitespace-padded range, obsolete date form, >= 2 date headers, Host with a port or '
+    'an IP literal or exotic reg-name, no Host header so that netloc comes from server name + port), or when it '
     'went through the single-edit mutator, or when the header name is sent or looked up in non-canonical '
-    'letter casing; distinct = distinct case fingerprint'
+    'letter casing; every response->request round-trip case counts; distinct = distinct case fingerprint'
 )
 ASSUMPTIONS = [
     'header values are RFC 9110 field-values: HTAB, SP, VCHAR, obs-text (latin-1); no CR/LF/NUL/other controls '
